@@ -86,7 +86,7 @@ def checkOp (h : Heap) (op : List J) (out : J) : Heap × List (String × Bool ×
       | "geo", some g, _ =>
         if n == 0 then one "geomean" (g == .nan) g.str
         else if !weighted && s.xs.any (· ≤ 0) then one "geomean-nonpositive" (g == .nan) g.str
-        else if sum ws == 0 then (if s.xs.any (· ≤ 0) then (h, []) else one "geomean" (g == .nan) g.str)
+        else if sum ws == 0 then one "geomean" (g == .nan) g.str     -- nothing counts: as for an empty sample
         else
           -- values of weight zero do not count (integer weights = repetition); a non-positive value that
           -- counts makes the result NaN, as for unweighted data. For non-integer weights with a
